@@ -70,6 +70,15 @@ static inline RealVector HamiltonianPart_getEigenState(struct HamiltonianPart *h
   return r;
 }
 static inline BlockNumber HamiltonianPart_getBlockNumber(struct HamiltonianPart *hp) { return hp->Block; }
+/* getMatrixElement(m, n): "return H(m,n)" -- after compute() the coefficient (m,n) of the eigenvector matrix: component m of eigenstate n.
+ * (Not called by the unchanged averages; modelled so that a change that reads the eigenvectors in place is decided.)  Recorded like a
+ * read of CurrentEigenState(m) of column n.  ASSERTED: inside the matrix (Eigen checks only without NDEBUG). */
+static inline double HamiltonianPart_getMatrixElement(struct HamiltonianPart *hp, unsigned long m, unsigned long n)
+{
+  __CPROVER_assert(m < (unsigned long)hp->H.rows && n < (unsigned long)hp->H.cols, "C09: getMatrixElement(m,n) inside the eigenvector matrix");
+  g_c_row = (long)m; g_c_col = (long)n; g_c_val = evec((long)m, (long)n); g_cell = g_c_val;
+  return g_c_val;
+}
 //@tu src/pomerol/HamiltonianPart.cpp
 //@maythrow HamiltonianPart_getEigenValue HamiltonianPart_getEigenState StatesClassification_getFockState
 //@function Pomerol::HamiltonianPart::getEigenValue(unsigned long) const as HamiltonianPart_getEigenValue
